@@ -817,3 +817,61 @@ func init() {
 		return out
 	}
 }
+
+// sync.Map model: an ordered map per receiver, kept on the interpreter.
+func (i *Interp) syncMapOf(p *value) *omap {
+	if i.syncMaps == nil {
+		i.syncMaps = map[*value]*omap{}
+	}
+	m := i.syncMaps[p]
+	if m == nil {
+		m = newOmap(types.NewInterfaceType(nil, nil))
+		i.syncMaps[p] = m
+	}
+	if !i.inInit {
+		i.dirty = true // mutated after initialisation: rebuild globals for the next path
+	}
+	return m
+}
+
+func init() {
+	intrinsics["(*sync.Map).Load"] = func(fr *frame, fn *ssa.Function, a []value) value {
+		m := fr.i.syncMaps[a[0].(*value)]
+		if k := m.find(fr, a[1]); k >= 0 {
+			return tuple{m.vals[k], true}
+		}
+		return tuple{iface{}, false}
+	}
+	intrinsics["(*sync.Map).Store"] = func(fr *frame, fn *ssa.Function, a []value) value {
+		fr.i.syncMapOf(a[0].(*value)).insert(fr, a[1], a[2])
+		return nil
+	}
+	intrinsics["(*sync.Map).LoadOrStore"] = func(fr *frame, fn *ssa.Function, a []value) value {
+		if m := fr.i.syncMaps[a[0].(*value)]; m != nil {
+			if k := m.find(fr, a[1]); k >= 0 {
+				return tuple{m.vals[k], true}
+			}
+		}
+		fr.i.syncMapOf(a[0].(*value)).insert(fr, a[1], a[2])
+		return tuple{a[2], false}
+	}
+	intrinsics["(*sync.Map).Delete"] = func(fr *frame, fn *ssa.Function, a []value) value {
+		fr.i.syncMapOf(a[0].(*value)).delete(fr, a[1])
+		return nil
+	}
+	intrinsics["(*sync.Map).Range"] = func(fr *frame, fn *ssa.Function, a []value) value {
+		m := fr.i.syncMaps[a[0].(*value)]
+		if m == nil {
+			return nil
+		}
+		keys := append([]value(nil), m.keys...)
+		for _, k := range keys {
+			if j := m.find(fr, k); j >= 0 {
+				if !fr.decide(call(fr.i, fr, 0, a[1], []value{k, m.vals[j]})) {
+					break
+				}
+			}
+		}
+		return nil
+	}
+}
